@@ -14,6 +14,7 @@ type MOp struct {
 	Kind string `json:"k"`
 	A    int    `json:"a,omitempty"`
 	B    int    `json:"b,omitempty"`
+	I    int    `json:"i,omitempty"` // iterator slot
 }
 
 // MapCase is a history for one omap.Map.
@@ -55,14 +56,16 @@ func mapCmp(kind string, mag int) func(a, b int) int {
 type kv struct{ k, v int }
 
 type mapRun struct {
-	c    MapCase
-	cmp  func(a, b int) int
-	m    [2]omap.Map[int, int] // two copies of the same Map value
-	ref  []kv                  // sorted under cmp
-	it   *omap.Iter[int, int]
-	pos  int  // model position of it: index in ref, or -1 invalid
-	sync bool // it is synchronised with the map (no edit since it was positioned)
-	step int
+	c   MapCase
+	cmp func(a, b int) int
+	m   [2]omap.Map[int, int] // two copies of the same Map value
+	ref []kv                  // sorted under cmp
+	// three iterator slots that are alive at the same time
+	its   [3]*omap.Iter[int, int]
+	poss  [3]int  // model position of each: index in ref, or -1 invalid
+	syncs [3]bool // the iterator is synchronised with the map (no edit since it was positioned)
+	cur   int     // slot addressed by the current op
+	step  int
 
 	deletes                  int
 	seekInside, seekThenPrev bool
@@ -87,11 +90,21 @@ func (r *mapRun) find(k int) (int, bool) {
 }
 
 func (r *mapRun) checkIter(what string) string {
-	it := r.it
-	if it == nil {
+	for slot := range r.its {
+		if m := r.checkIterSlot(slot, what); m != "" {
+			return m
+		}
+	}
+	return ""
+}
+
+func (r *mapRun) checkIterSlot(slot int, what string) string {
+	it, pos := r.its[slot], r.poss[slot]
+	if it == nil || !r.syncs[slot] {
 		return ""
 	}
-	if r.pos < 0 || r.pos >= len(r.ref) {
+	what = fmt.Sprintf("%s (iterator slot %d)", what, slot)
+	if pos < 0 || pos >= len(r.ref) {
 		if it.IsValid() {
 			return r.errf("%s: iterator should be invalid but is at key %v", what, it.Key())
 		}
@@ -100,12 +113,12 @@ func (r *mapRun) checkIter(what string) string {
 		}
 		return ""
 	}
-	want := r.ref[r.pos]
+	want := r.ref[pos]
 	if !it.IsValid() {
 		return r.errf("%s: iterator is invalid, should be at key %d", what, want.k)
 	}
 	if r.cmp(it.Key(), want.k) != 0 || it.Value() != want.v {
-		return r.errf("%s: iterator at %v:%v, reference entry %d is %d:%d", what, it.Key(), it.Value(), r.pos, want.k, want.v)
+		return r.errf("%s: iterator at %v:%v, reference entry %d is %d:%d", what, it.Key(), it.Value(), pos, want.k, want.v)
 	}
 	return ""
 }
@@ -202,7 +215,7 @@ func (r *mapRun) absentKey(sel int) (int, bool) {
 }
 
 func runC04(c MapCase, o *vk.Obs) string {
-	r := &mapRun{c: c, cmp: mapCmp(c.Cmp, c.Mag), pos: -1, step: -1}
+	r := &mapRun{c: c, cmp: mapCmp(c.Cmp, c.Mag), poss: [3]int{-1, -1, -1}, step: -1}
 	if !c.Zero {
 		r.m[0] = omap.NewFunc[int, int](r.cmp)
 		if c.Cmp == "nat" && c.Mag%3 == 0 {
@@ -216,6 +229,7 @@ func runC04(c MapCase, o *vk.Obs) string {
 	for i, op := range c.Ops {
 		r.step = i
 		m := r.m[op.B&1]
+		r.cur = op.I % 3
 		edit := false
 		switch op.Kind {
 		case "set", "setI":
@@ -265,6 +279,40 @@ func runC04(c MapCase, o *vk.Obs) string {
 				r.deletes++
 			}
 			edit = true
+		case "staleProbe":
+			// read a key, delete its neighbour, write the key, read it again:
+			// a lookup shortcut that survives a structural change nearby shows here
+			if c.Zero || len(r.ref) < 2 {
+				break
+			}
+			j := op.A % len(r.ref)
+			s := r.ref[j]
+			if v, ok := m.GetOK(s.k); !ok || v != s.v {
+				return r.errf("GetOK(%d) = (%v,%v), reference (%v,true)", s.k, v, ok, s.v)
+			}
+			nb := j - 1
+			if op.A/len(r.ref)%2 == 1 || nb < 0 {
+				nb = j + 1
+			}
+			if nb >= 0 && nb < len(r.ref) {
+				if !m.Delete(r.ref[nb].k) {
+					return r.errf("Delete(%d) of a present key reports false", r.ref[nb].k)
+				}
+				r.ref = append(r.ref[:nb], r.ref[nb+1:]...)
+				r.deletes++
+				if nb < j {
+					j--
+				}
+			}
+			nv := 5000 + i
+			if m.Set(s.k, nv) {
+				return r.errf("Set(%d) of a present key reports it as new", s.k)
+			}
+			r.ref[j].v = nv
+			if v, ok := m.GetOK(s.k); !ok || v != nv {
+				return r.errf("GetOK(%d) = (%v,%v) after Set(%d,%d) (a neighbouring key was deleted in between), want (%d,true)", s.k, v, ok, s.k, nv, nv)
+			}
+			edit = true
 		case "clear":
 			m.Clear()
 			r.ref = nil
@@ -289,12 +337,12 @@ func runC04(c MapCase, o *vk.Obs) string {
 				return r.errf("GetOK(%d) = (%v,%v), Get = %v; reference (%v,%v)", k, v, ok, v2, want, found)
 			}
 		case "first":
-			r.it, r.pos, r.sync = m.First(), 0, true
+			r.its[r.cur], r.poss[r.cur], r.syncs[r.cur] = m.First(), 0, true
 			if len(r.ref) == 0 {
-				r.pos = -1
+				r.poss[r.cur] = -1
 			}
 		case "last":
-			r.it, r.pos, r.sync = m.Last(), len(r.ref)-1, true
+			r.its[r.cur], r.poss[r.cur], r.syncs[r.cur] = m.Last(), len(r.ref)-1, true
 		case "seek", "seekI", "seekAbsent", "itseek", "itseekI", "itseekAbsent":
 			k := op.A % 100
 			inside := false
@@ -310,18 +358,18 @@ func runC04(c MapCase, o *vk.Obs) string {
 					inside = j > 0 && j < len(r.ref)
 				}
 			}
-			if strings.HasPrefix(op.Kind, "it") && r.it != nil {
-				if ret := r.it.Seek(k); ret != r.it {
+			if strings.HasPrefix(op.Kind, "it") && r.its[r.cur] != nil {
+				if ret := r.its[r.cur].Seek(k); ret != r.its[r.cur] {
 					return r.errf("Iter.Seek does not return its receiver")
 				}
 			} else {
-				r.it = m.Seek(k)
+				r.its[r.cur] = m.Seek(k)
 			}
-			r.pos = r.lower(k)
-			if r.pos >= len(r.ref) {
-				r.pos = -1
+			r.poss[r.cur] = r.lower(k)
+			if r.poss[r.cur] >= len(r.ref) {
+				r.poss[r.cur] = -1
 			}
-			r.sync = true
+			r.syncs[r.cur] = true
 			r.lastSeekInside = inside
 			if inside {
 				r.seekInside = true
@@ -330,37 +378,37 @@ func runC04(c MapCase, o *vk.Obs) string {
 				return msg
 			}
 		case "next", "prev":
-			if r.it == nil || !r.sync {
+			if r.its[r.cur] == nil || !r.syncs[r.cur] {
 				break // an iterator is only used while synchronised with the map
 			}
 			var ret *omap.Iter[int, int]
 			if op.Kind == "next" {
-				ret = r.it.Next()
-				if r.pos >= 0 {
-					r.pos++
-					if r.pos >= len(r.ref) {
-						r.pos = -1
+				ret = r.its[r.cur].Next()
+				if r.poss[r.cur] >= 0 {
+					r.poss[r.cur]++
+					if r.poss[r.cur] >= len(r.ref) {
+						r.poss[r.cur] = -1
 					}
 				}
 			} else {
-				ret = r.it.Prev()
-				if r.pos >= 0 {
-					r.pos--
+				ret = r.its[r.cur].Prev()
+				if r.poss[r.cur] >= 0 {
+					r.poss[r.cur]--
 				}
 				if r.lastSeekInside && r.deletes > 0 {
 					r.seekThenPrev = true
 				}
 			}
-			if ret != r.it {
+			if ret != r.its[r.cur] {
 				return r.errf("Iter.%s does not return its receiver", op.Kind)
 			}
 			r.lastSeekInside = r.lastSeekInside && op.Kind == "prev"
 		case "delseek":
 			// the documented delete-while-iterating idiom
-			if r.it == nil || !r.sync || r.pos < 0 || c.Zero {
+			if r.its[r.cur] == nil || !r.syncs[r.cur] || r.poss[r.cur] < 0 || c.Zero {
 				break
 			}
-			key := r.it.Key()
+			key := r.its[r.cur].Key()
 			j, found := r.find(key)
 			if !found {
 				return r.errf("iterator key %d is not in the reference", key)
@@ -370,21 +418,24 @@ func runC04(c MapCase, o *vk.Obs) string {
 			}
 			r.ref = append(r.ref[:j], r.ref[j+1:]...)
 			r.deletes++
-			r.it.Seek(key)
-			r.pos = j
-			if r.pos >= len(r.ref) {
-				r.pos = -1
+			for k := range r.syncs { // the map was edited: every other iterator is out of date
+				if k != r.cur {
+					r.syncs[k] = false
+				}
+			}
+			r.its[r.cur].Seek(key)
+			r.poss[r.cur] = j
+			if r.poss[r.cur] >= len(r.ref) {
+				r.poss[r.cur] = -1
 			}
 		default:
 			return r.errf("VK-INFRA unknown op %q", op.Kind)
 		}
 		if edit {
-			r.sync = false
+			r.syncs = [3]bool{}
 		}
-		if r.sync {
-			if msg := r.checkIter(op.Kind); msg != "" {
-				return msg
-			}
+		if msg := r.checkIter(op.Kind); msg != "" { // every live, synchronised iterator
+			return msg
 		}
 		if msg := r.checkAll(); msg != "" {
 			return msg
